@@ -6,6 +6,22 @@ namespace TextOps
 def noneC : Content := .none
 def clauses (l : List String) : Json := Json.arr (l.map Json.str).toArray
 
+/-- history steps: {"k":"append"|"iadd","c":content} {"k":"trim","end_only":b} {"k":"indent","ind":I?}
+    {"k":"set_indentor","ind":I} {"k":"setlines","ls":[str]} {"k":"add","c":content}
+    {"k":"pour","in_list":b} {"k":"obs"} -/
+def hop (j : Json) : Except String HOp := do
+  let k ← (← field j "k").getStr?
+  match k with
+  | "append" | "iadd" => pure (.append (← content (← field j "c")))
+  | "trim" => pure (.trim (boolFieldD j "end_only" false))
+  | "indent" => if hasField j "ind" then pure (.indent (some (← indentizer (← field j "ind")))) else pure (.indent none)
+  | "set_indentor" => pure (.setIndentor (← indentizer (← field j "ind")))
+  | "setlines" => pure (.setLines (← strListField j "ls"))
+  | "add" => pure (.add (← content (← field j "c")))
+  | "pour" => pure (.pour (boolFieldD j "in_list" false))
+  | "obs" => pure .observe
+  | _ => throw s!"unknown history step {k}"
+
 /-- each op returns {"model": …, "failed": [clauses]} ; "impl" carries the implementation's output -/
 def handle (op : String) (j : Json) : Except String Json := do
   let impl := fieldD j "impl" Json.null
@@ -135,6 +151,49 @@ def handle (op : String) (j : Json) : Except String Json := do
             | .ok s4 => if s4 = want then [] else ["appended-then-rendered"]
             | _ => ["impl-error"]))
       | _ => ["impl-error"]
+    pure (Json.mkObj [("model", model), ("failed", clauses failed)])
+  | "tb.hist" =>
+    -- one TextBlock / Comment object under a history of operations; impl: [{"lines":..,"str":..,"extra":..|null}]
+    let c ← content (← field j "content")
+    let h ← contentD j "header" noneC
+    let isC := boolFieldD j "comment" false
+    let ops ← (← arrField j "steps").mapM hop
+    let o := TObj.new isC c h
+    let obs := o.run ops
+    -- a Comment whose stored indentizer is never touched renders every line behind `//`
+    let plainComment := ops.all fun | .indent _ | .setIndentor _ => false | _ => true
+    -- lines written through the setter / produced by an indenter are not split (outside "no line break")
+    let dirty := ops.any fun | .setLines _ | .indent _ => true | _ => false
+    let obsJson (x : HObs) : Json := Json.mkObj [("lines", SL x.lines), ("str", S x.str),
+      ("extra", match x.extra with | none => Json.null | some l => SL l)]
+    let model := Json.arr (obs.map obsJson).toArray
+    let failed := if impl.isNull then [] else
+      match impl.getArr? with
+      | .ok a =>
+        let implObs : List (Option HObs) := a.toList.map fun x =>
+          match (strListField x "lines", strField x "str") with
+          | (.ok ls, .ok s) =>
+            let ex : Option (List Str) := (strListField x "extra").toOption
+            some { lines := ls, str := s, extra := ex }
+          | _ => none
+        if implObs.length ≠ obs.length then ["history-length"] else
+        (implObs.zip (ops.zip obs)).flatMap fun (io, op, _) =>
+          match io with
+          | none => ["impl-error"]
+          | some x =>
+            -- the string form is fixed by the *implementation's own* current lines
+            (if isC then
+               (if plainComment then
+                  (if x.str = Spec.commentSpec x.lines then [] else ["comment-str≠//-rendering-of-lines"])
+                else [])
+             else if x.str = Spec.strSpec o.tb.header x.lines then [] else ["str≠header+lines+newline"]) ++
+            (match op with
+             | .setLines _ | .indent _ | .setIndentor _ => []
+             | _ => if !dirty && !(x.lines.all Spec.breakFree) then ["line-contains-break"] else [])
+      | _ => ["impl-error"]
+    -- the whole observation sequence is the specified one
+    let failed := failed ++ (if impl.isNull then [] else
+      if impl == model then [] else ["history≠specified"])
     pure (Json.mkObj [("model", model), ("failed", clauses failed)])
   | "py.splitlines" =>
     let s ← strField j "s"
